@@ -31,10 +31,47 @@ def _const_items_rejected(stderr, hdir):
     return out
 
 
+def _instantiation_rejected(stderr, hdir):
+    """The main bin instantiates every (function, element type, length) of its lattice.  When an instantiation is
+    rejected at compile time (a `const { assert!(..) }` that fails after monomorphisation, an evaluation error),
+    rustc names it: `while instantiating `fn GenericArray::<T, N>::f``.  Those are reported as the cases
+    [form, ty, N, 0, 0, 0, 0] (the call on the empty slice), which on an unchanged crate return normally."""
+    import re
+    forms = {"chunks_from_slice": 0, "chunks_from_slice_mut": 1, "slice_from_chunks": 4, "slice_from_chunks_mut": 5,
+             "from_chunks": 6, "into_chunks": 6, "from_chunks_mut": 7, "into_chunks_mut": 7}
+    tys = {"u8": 0, "u32": 1, "()": 2, "(u8, u16)": 3}
+
+    def length(t):
+        t = t.strip()
+        if t.endswith("UTerm") and "UInt" not in t:
+            return 0
+        m = re.match(r"U(\d+)$", t.split("::")[-1])
+        if m:
+            return int(m.group(1))
+        bits = re.findall(r"B([01])>", t)     # UInt<UInt<UTerm, B1>, B0>: most significant digit first
+        if bits:
+            return int("".join(bits), 2)
+        return None
+
+    out, seen = [], set()
+    for m in re.finditer(r"while instantiating `fn (?:generic_array::)?GenericArray::<(.*?), ([^`]*?)>::(\w+)`", stderr):
+        elem, ln, f = m.group(1).strip(), m.group(2), m.group(3)
+        if f not in forms or elem not in tys:
+            continue
+        n = length(ln)
+        if n is None:
+            continue
+        case = "%d %d %d 0 0 0 0" % (forms[f], tys[elem], n)
+        if case not in seen:
+            seen.add(case)
+            out.append((case, "GenericArray::<%s, U%d>::%s is rejected at compile time (instantiation error), although the call on the empty slice is in the function's domain" % (elem, n, f)))
+    return out
+
+
 PROP = {
     "regen_files": ["GenGuards.v", "GenSigs.v"],
     "num": 10,
-    "runs": [{"tag": "c10", "bin": "c10", "timeout": {"quick": 300, "thorough": 900}},
+    "runs": [{"tag": "c10", "bin": "c10", "timeout": {"quick": 300, "thorough": 900}, "on_build_failure": _instantiation_rejected},
              # the same calls inside `const` items; a separate bin so that a compile-time
              # evaluation error does not take the run-time cases (and their replays) down
              {"tag": "c10const", "bin": "c10c", "timeout": 120, "on_build_failure": _const_items_rejected},
